@@ -30,6 +30,7 @@ SNIPPETS = [
     ("local t = {\n\tf = function() return 0; end,\n\tg = { 1, 2 },\n}\n", "lua51"), ("call({ a, b }, function() return 1 end)\n", "lua51"),
     # collapsible bodies
     ("local d = function() return 0; end\n", "lua51"), ("local function g() start(); end\n", "lua51"), ("if ready then start() end\n", "lua51"),
+    ("if not ok then return; end\n", "lua51"), ("if ready then q:flush(); end\n", "lua51"), ("if a then x = 1; end\n", "lua51"), ("while true do break; end\n", "lua51"),
     # requires
     ("local b = require(\"b\")\nlocal a = require(\"a\")\n", "lua51"),
     # other syntaxes
@@ -78,7 +79,7 @@ def load_known():
             known[k] = (prop, rest)
     return known
 
-PROP_OF = {"parse": "C01", "tree": "C02", "literals": "C02", "comments": "C03", "panic": "C07", "error": "C07"}
+PROP_OF = {"parse": "C01", "tree": "C02", "literals": "C02", "comments": "C03", "whitespace": "C10", "panic": "C07", "error": "C07"}
 
 def run(configs=None, widths=None):
     """returns (failures, stats); failure = dict(id, src, syntax, kind, opts, column_width, detail, key, prop)"""
